@@ -328,6 +328,16 @@ class Session:
                 if a not in feats:
                     feats[a] = list(op["default"])
             feats = {a: feats[a] for a in mab.arms}
+            if self.cfg.get("reuse_feats"):
+                # F-REUSE for the arm-feature dictionary: the caller keeps ONE dict and corrects its vectors in place
+                keep = self._pool.setdefault(("feats",), {})
+                if set(keep) != set(feats):
+                    keep.clear()
+                for a, v in feats.items():
+                    keep[a] = v
+                feats = keep
+                if ctx is not None:
+                    ctx.fired("fault.caller_reuses_feature_dict")
             objs = [feats]
             if not self.fitted and self.ctxl and self.cfg["lp"][0] in LINEAR:
                 return ("skip", None)
